@@ -54,6 +54,10 @@ PROPS = {
         "lean_modules": ["C09"],
         "rule": "element types float32/float64/complex64/complex128 (trace: all sixteen; refusals: int, uint, bool, string, mismatched types) x products {Inner, MatVecMul, MatMul, Outer, Contract/TensorMul, Dot, Trace} x {package function, method}; operand shapes: vector forms (n), (n,1), (1,n) for n in 1..4, all matrices with dims 1..4, rank-3/4 tensors with dims <= 4; TensorMul with every valid single contraction axis pair for ranks 1..4 x 1..4, pairs of axes and no axes, invalid axes; Dot over the full rank table 0..4 x 0..4; every pair of operand layouts {contiguous, lazily transposed, offset slice, stepped slice, materialised} x {safe, reuse, incr}, a column-major block; destinations {fresh, same size other shape, wrong size, view, lazily transposed, other element type}; small-integer value sets so every sum is exact and the comparison is bit-exact in any accumulation order; result, operands, destination and parents of views are dumped after the call",
     },
+    "C10": {
+        "lean_modules": ["C10"],
+        "rule": '1-4 operands x base shapes of rank 1-4 (vector-like shapes included) x every valid axis (concat 0..rank-1, stack 0..rank, repeat 0..rank-1 and AllAxes) x operand layouts {contiguous, lazily transposed, offset slice, stepped slice, materialised, contiguous row-slice} independently per operand x {function, method} for Concat/Stack/Repeat, Hstack, Vstack, RepeatReuse (right, wrong and non-contiguous reuse) x counts {one broadcast 0-3, per-entry 0-3, exactly one survivor} x u8,i16,f32,f64,c128,str; every program runs the calculator (Shape.Concat/Shape.Repeat) on the same arguments first; malformed stream (axes rank, rank+1, -1, -2, -3; wrong count length; off-axis/rank mismatches; permuted equal-size shapes; the same tensor repeated; rank-0; vector-axis-1 extension; masked Concat operands); after each op: result dump, returned-tensor identity, opsame (metadata + mask of every operand unchanged), dumps of every pre-existing tensor',
+    },
     "C11": {
         "lean_modules": ["C11"],
         "rule": "6 comparisons x all ordered (for eq/ne: all comparable, incl. bool, complex, string) element types x {TT, TS, ST} x {bool result, AsSameType, unsafe, bool reuse, same-type reuse} x operand layouts as C06, values with ties, NaN, extremes; refusals of unordered / mismatched types and shapes",
